@@ -7,10 +7,15 @@ from vlib.core import run_check
 
 def main():
     ap = argparse.ArgumentParser()
-    ap.add_argument('pid')
+    ap.add_argument('pid', nargs='?')
+    ap.add_argument('--selftest', action='store_true')
     ap.add_argument('--tier', default=os.environ.get('VERIF_TIER') or 'quick', choices=['quick', 'thorough'])
     ap.add_argument('--replay', default=None)
     args = ap.parse_args()
+    if args.selftest:
+        import loki, icontract  # noqa
+        print('selftest ok: loki from', loki.__file__)
+        sys.exit(0)
     try:
         seed = int(os.environ.get('VERIF_SEED', '0') or 0)
     except ValueError:
